@@ -15,6 +15,7 @@ EXPLANATION = (
     'Also decided: the instance tables are created per daemon / per connection, read and written under the same key, a fresh instance is stored before it is returned, close() drops session instances on every path, _getInstance runs exactly for registered classes, the creator is tested by identity with None. '
     "Also decided (round 7): Only the behavior decorator and register()'s guarded default write a class's instance mode. "
     'Also decided (round 9): The behavior decorator stores the (mode, creator) pair it was given. '
+    'Also decided (round 12): The existing-connection server wraps its socket in ONE SocketConnection, made at set-up. '
     "Not decided: identity across real histories/schedules (follows only under the interpreter's lock semantics)."
 )
 
@@ -185,6 +186,19 @@ def run(ctx, R, tier):
     R.check(okr, "C09-R3", "SocketConnection.close|drop-on-every-path", "every path through close() (also when shutting the socket down fails) drops the session instances", cl.loc(),
             "the reset of pyroInstances can be skipped (it sits behind a call whose failure is suppressed): after a connection reset by the peer the session instances are kept")
     # ... and every server type really closes an ended connection, also when the disconnect hook raises (shared with C13-R1/R2)
+    # on a connection the application handed over (svr_existingconn) the session table lives on the ONE SocketConnection object made when the server is set up: every
+    # request is dispatched on that object. A wrapper object made per request (a property that builds one on each access) has an empty table each time - the session
+    # instance is created anew for every call and its state is lost
+    exc_cls = p.cls("Pyro5.svr_existingconn.SocketServer_ExistingConnection")
+    made = [(m_, c) for m_ in exc_cls.methods.values() for c in walk_no_nested(m_.node)
+            if isinstance(c, ast.Call) and (dotted(c.func) or "").endswith("SocketConnection")]
+    if not made:
+        raise AnalysisError("SocketServer_ExistingConnection no longer wraps its socket in a SocketConnection")
+    per_request = [(m_, c) for m_, c in made if m_.name != "init" and m_.name != "__init__"]
+    R.check(not per_request, "C09-R3", "existing-connection|one-connection-object-for-all-requests", "the SocketConnection of a pre-connected socket is created once, when the server is initialised",
+            per_request[0][0].loc(per_request[0][1]) if per_request else exc_cls.module.relpath,
+            ("`%s` in %s builds a new connection object outside the server's set-up: requests on the one real connection are dispatched on different SocketConnection objects, each with "
+             "an empty pyroInstances table - a 'session' class gets a fresh instance for every call" % (unparse(per_request[0][1], 60), per_request[0][0].name)) if per_request else "")
     from ..report import Rules
     from ..report import run_shared as _run_shared
     from . import c13
